@@ -213,7 +213,7 @@ class FourierSeries:
 
     def ifft(
         self,
-        ifftn: Callable[[np.ndarray], np.ndarray] | None = None,
+        ifftn: Callable[[np.ndarray, int], np.ndarray] | None = None,
     ) -> timeseries.TimeSeries:
         """Perform 1-D complex to real inverse FFT.
 
@@ -233,7 +233,9 @@ class FourierSeries:
         if not callable(ifftn):
             msg = f"Input ifftn is not callable: {ifftn}"
             raise TypeError(msg)
-        tim_ar = ifftn(self.data)
+        # The length of the real series is not recoverable from the number of bins
+        # (n and n + 1 give the same count), so pass it on explicitly
+        tim_ar = ifftn(self.data, self.header.nsamples)
         return timeseries.TimeSeries(tim_ar, self.header.new_header())
 
     def form_spec(self, *, interpolate: bool = False) -> PowerSpectrum:
